@@ -15,6 +15,8 @@ grammar by the kernel-evaluable validator (`Proofs/Valid`, theorem
 machine and table for every generated grammar.
 -/
 import KikiVerif.LR.Snd
+import KikiVerif.Proofs.Run
+import KikiVerif.Proofs.Valid
 
 namespace KikiVerif.C01
 open KikiVerif.LR
@@ -37,7 +39,30 @@ theorem C01_complete {g : Grammar T N} {A : Auto T N} (hc : Complete (P := P) g 
     ∃ c, Steps g A ⟨[A.start], [], t.yield⟩ c ∧ step g A c = .ok t :=
   run_complete hc t hwf
 
+/-! ### whole runs, for any automaton the validator accepts -/
+
+open KikiVerif.Valid in
+/-- **C01 for a validated automaton** (all token sequences, any length, any payload type): the loop of the
+emitted `parse` never panics, and whenever it ends it returns `Ok` iff the token sequence is derivable from
+the start symbol.  `validB` is the executable validator the correspondence run applies to the machine and
+table the implementation built for each generated grammar (and the kernel to `parser.rs`, C09). -/
+theorem C01_accepts_iff {P : Type} {g : Grammar Nat Nat} {nN : Nat} {C : Cert} (hv : validB g nN C = true)
+    (w : List (Tok Nat P)) (fuel : Nat) (r : StepRes Nat P) (cf : Cfg Nat P)
+    (hrun : runCfg g (mkAuto C) fuel ⟨[(mkAuto C).start], [], w⟩ = some (r, cf)) :
+    r ≠ .panic ∧ ((∃ t, r = .ok t) ↔ ∃ t : Tree Nat P, WF g t (.n g.start) ∧ t.yield = w) := by
+  obtain ⟨hs, hc⟩ := validB_sound (P := P) hv
+  exact ⟨(run_sound hs fuel _ [] .base _ _ hrun).1, run_ok_iff hs hc w fuel r cf hrun⟩
+
+open KikiVerif.Valid in
+/-- termination on every sentence (termination on non-sentences is the residue, see DESIGN.md §6.1) -/
+theorem C01_sentences_terminate {P : Type} {g : Grammar Nat Nat} {nN : Nat} {C : Cert} (hv : validB g nN C = true)
+    (t : Tree Nat P) (hwf : WF g t (.n g.start)) :
+    ∃ fuel cf, runCfg g (mkAuto C) fuel ⟨[(mkAuto C).start], [], t.yield⟩ = some (.ok t, cf) :=
+  run_accepts (validB_sound (P := P) hv).2 t hwf
+
 end KikiVerif.C01
 
 #print axioms KikiVerif.C01.C01_no_panic_and_sound
 #print axioms KikiVerif.C01.C01_complete
+#print axioms KikiVerif.C01.C01_accepts_iff
+#print axioms KikiVerif.C01.C01_sentences_terminate
